@@ -774,6 +774,20 @@ def exhaustive_cases(rng, quick):
                 (['0', '1', '2', '3'], 'range'), (['0', '1', '2'], 'list'), (['1', '2', '3'], 'ndarray'),
                 (['1/2', '3/2', '2'], 'list'), (['-1/2', '1/2', '5/2'], 'ndarray'), (['0', '1'], 'list'), (['0', '2', '3'], 'tuple'), (['7', '8', '9'], 'list')])
             out.append(case)
+    # an EMPTY second collection is a second collection: every cross count is 0 (and with a pseudocount c every bin c / 2c), it is not "no second
+    # collection" (seeded change C05-r8m2); edge vectors that are equally spaced only ALMOST stay the edges given (seeded change C05-r8m3: an
+    # equal-width shortcut taken when np.allclose says so moves integer distances sitting on an edge into the bin below)
+    for cont in ('list', 'ndarray', 'series'):
+        for norm, pc_ in ((False, None), (True, '1/2'), (None, '1')):
+            out.append(dict(kind='str', xs=['A', 'AB', 'A', 'BAB'], ys=[], cols=None, metric=['default'], container=cont, container_ys=cont,
+                            normalize=norm, pseudocount=pc_, bins=['0', '1', '2', '3', '4'], bins_container='ndarray'))
+    for edges in (['0', '1', '2', '3', '4', '5', '6000001/1000000'], ['0', '3', '6', '900002/100000'], ['0', '1', '2', '3000003/1000000'],
+                  ['0', '2', '4', '6', '8000001/1000000']):
+        for bc in ('list', 'ndarray'):
+            out.append(dict(kind='str', xs=['', 'A', 'AB', 'ABAB', 'BBBBBB', 'A', 'ABABAB', 'BABABABA'], ys=None, cols=None, metric=['lev'], container='list',
+                            normalize=False, pseudocount=None, bins=edges, bins_container=bc))
+            out.append(dict(kind='str', xs=['', 'A', 'AB', 'ABAB'], ys=['BBBBBB', 'A', 'ABABAB', 'BABABABA', ''], cols=None, metric=['default'], container='list',
+                            normalize=True, pseudocount=None, bins=edges, bins_container=bc))
     return out
 
 
